@@ -346,7 +346,8 @@ async fn run_helper_case(l: &[Val]) -> Val {
                         tables.insert_route(
                             src.clone(),
                             f,
-                            packet::PathNlri { path_id: 0, nlri: net_of(e[2].u32()) },
+                            // id = 2 * prefix + path id (two paths of one prefix share a destination)
+                            packet::PathNlri { path_id: e[2].u32() % 2, nlri: net_of(e[2].u32() / 2) },
                             None,
                             comm_attrs(e[3].bool(), e[4].bool()),
                             None,
@@ -484,7 +485,7 @@ async fn run_helper_case(l: &[Val]) -> Val {
                         .unwrap_or(-1);
                     routes.push(vec![
                         fam_code(&f),
-                        net_code(&d.net),
+                        net_code(&d.net) * 2 + p.remote_path_id as i128,
                         g,
                         p.source.is_stale() as i128,
                         p.source.is_llgr_stale() as i128,
